@@ -7,7 +7,7 @@ from ..prng import Rng, derive
 from . import seqcommon
 
 RULE = ('the C09 histories with lifecycle hooks on every entity whose behaviour is a seeded knob (log only; read own '
-        'attributes; modify another own attribute in before_insert/before_update; create an object of another entity in '
+        'attributes; modify another own attribute in before_insert/before_update; create an object of another entity or add a many-to-many link in '
         'before_insert), through every flush entry point (auto-flush before queries and lookups, flush(), commit(), '
         'session exit, obj.flush()); hook events are stamped with the DB-API call counter and merged with the '
         'INSERT/UPDATE/DELETE statements the proxy recorded; oracle per flush window and (entity, kind): every statement '
@@ -16,7 +16,7 @@ RULE = ('the C09 histories with lifecycle hooks on every entity whose behaviour 
         'statement; edits and creations made in before_* hooks are part of the model, so dumps and reads must show '
         'them after the same flush. Non-trivial and distinct as for C09 (hook mode is part of the identity).')
 
-MODES = ('log', 'read', 'modify', 'create')
+MODES = ('log', 'read', 'modify', 'create', 'link')
 
 
 def main(tier, seed):
